@@ -784,6 +784,7 @@ var profiles = map[string]func(b *bias, g *gen){
 	},
 	"inval": func(b *bias, g *gen) {
 		b.pUnsafe, b.pLoc, b.resources = 25, 60, [2]int{2, 3}
+		b.pVary, b.pSelHdr = 35, 60
 		b.lifetimes = []int64{60, 300, 3600}
 		b.pNoCache, b.pNoStore, b.pMustReval, b.pErrStatus = 1, 1, 2, 10
 		b.clients = [2]int{1, 2}
@@ -1016,6 +1017,21 @@ func Gen(profile string, seed uint64, thorough bool) *Scenario {
 				p := &scn.Resources[i].Plans[k]
 				if (p.Status >= 500 || p.Fault == "err") && g.chance(50) {
 					p.LatNs = g.dur(pick(g, int64(1), 2, 3, 5, 8)) // a failure that takes its time
+				}
+			}
+		}
+	}
+	if profile == "inval" {
+		// bodies that arrive slowly, so that a GET for one variant is still reading its reply while an unsafe
+		// request that names the URI (target, Location, Content-Location) completes
+		for i := range scn.Resources {
+			for k := range scn.Resources[i].Plans {
+				p := &scn.Resources[i].Plans[k]
+				if p.Status == 200 && g.chance(40) {
+					if len(p.Chunks) == 0 {
+						p.Chunks = []int{1 + g.IntN(max(p.BodyLen, 8))}
+					}
+					p.ChunkLatNs = g.dur(pick(g, int64(1), 2, 3))
 				}
 			}
 		}
